@@ -63,8 +63,9 @@ def default_key(case, res) -> str:
 
 def compare(mod, model, cases, results):
     """returns list of (index, model_out) where model and python differ; also model outputs"""
-    idx = [i for i, c in enumerate(cases) if mod.request(c) is not None]
-    lines = [mod.request(cases[i]) for i in idx]
+    reqs = [mod.request(c) for c in cases]
+    idx = [i for i, r in enumerate(reqs) if r is not None]
+    lines = [reqs[i] for i in idx]
     replies = model.ask_many(lines)
     dis = []
     for i, rep in zip(idx, replies):
@@ -141,7 +142,12 @@ def main(mod, argv=None):
     # 2. correspondence + oracle on the real code ---------------------------------------------
     C.use_repo()
     rng = random.Random(seed * 1000003 + 17)
-    cases = list(mod.cases(rng, tier))
+    # a changed anchored source file is never a verdict by itself; it escalates the generator of this run
+    changed = C.changed_anchor_files(prop)
+    gen_tier = tier
+    if changed and tier == "quick" and os.environ.get("VERIF_NO_ESCALATE") != "1":
+        gen_tier = getattr(mod, "ESCALATED_TIER", "thorough")
+    cases = list(mod.cases(rng, gen_tier))
     results = run_python_all(mod, cases, args.procs)
     harness_errors = [(i, r) for i, r in enumerate(results) if "harness_error" in r]
     model = C.LeanModel()
@@ -254,6 +260,8 @@ def main(mod, argv=None):
         },
         "generator_distribution": stats.dump(),
         "exhaustive": bool(getattr(mod, "EXHAUSTIVE", {}).get(tier, False)),
+        "anchored_sources_changed_since_integration": changed,
+        "generator_tier_used": gen_tier,
         "proof_problems": proof_problems[:10],
     }
     C.write_evidence(prop, tier, seed, coverage, list(mod.ASSUMPTIONS), time.time() - t0, violations)
